@@ -207,9 +207,12 @@ func vh_C19_L3_retry_law() {
 // C19.L3b: the duration armed at each expiry is the doubled RTO in milliseconds.
 func vh_C19_L3_armed_duration() {
 	obs := &vRtxObserver{inOrderOK: true}
-	rtoMaxMs := 2000 + 1000*vPick(3)
+	rtoMaxMs := []int{2000, 3000, 4000, 1000, 500}[vPick(5)] // any configured maximum, also one at or below the protocol minimum
 	t := newRTXTimer(1, obs, 0, float64(rtoMaxMs))
 	rtoMs := 1000 + vPick(3)*500
+	if rtoMs > rtoMaxMs {
+		rtoMs = rtoMaxMs // the RTO manager never hands out more than the configured maximum
+	}
 	vassert(t.start(float64(rtoMs)), "start")
 	want := rtoMs
 	for i := 0; i < 4; i++ {
@@ -336,6 +339,8 @@ func vh_C19_L6_ack_timer_interleavings() {
 // sample equal to the time since the request was built.
 func vh_C19_L7_active_heartbeat_roundtrip() {
 	a, b := vPair(vAssocOpts{pickTSN: true})
+	// the answering side may already be shutting down (it still owns the association)
+	b.setState([]uint32{established, shutdownPending, shutdownSent, shutdownReceived, shutdownAckSent}[vPick(5)])
 	a.ActiveHeartbeat()
 	var info []byte
 	nHB := 0
